@@ -82,6 +82,9 @@ class _ParsedValues:
     exceptions: list[DocstringRaise] = field(default_factory=list)
     return_value: DocstringReturn | None = None
     return_type: str | None = None
+    # Names of parameters / attributes whose annotation was not written in the docstring
+    # but taken from the parent: a type field read later takes precedence over it.
+    inferred_annotations: set[tuple[str, str]] = field(default_factory=set)
 
 
 def parse_sphinx(docstring: Docstring, *, warn_unknown_params: bool = True, **options: Any) -> list[DocstringSection]:
@@ -159,6 +162,8 @@ def _read_parameter(
                 docstring_warning(docstring, 0, message)
 
     annotation = _determine_param_annotation(docstring, name, directive_type, parsed_values)
+    if directive_type is None and name not in parsed_values.param_types:
+        parsed_values.inferred_annotations.add(("parameter", name))
     default = _determine_param_default(docstring, name)
 
     parsed_values.parameters[name] = DocstringParameter(
@@ -230,7 +235,8 @@ def _read_parameter_type(
     parsed_values.param_types[param_name] = param_type
     param = parsed_values.parameters.get(param_name)
     if param is not None:
-        if param.annotation is None:
+        if param.annotation is None or ("parameter", param_name) in parsed_values.inferred_annotations:
+            parsed_values.inferred_annotations.discard(("parameter", param_name))
             param.annotation = param_type
         else:
             docstring_warning(docstring, 0, f"Duplicate parameter information for '{param_name}'")
@@ -265,6 +271,8 @@ def _read_attribute(
         annotation = parsed_attribute_type
     else:
         # try to use the annotation from the parent
+        if name not in parsed_values.attributes:
+            parsed_values.inferred_annotations.add(("attribute", name))
         with suppress(AttributeError, KeyError, TypeError, ValueError, AliasResolutionError, CyclicAliasError):
             # Use subscript syntax to fetch annotation from inherited members too.
             annotation = docstring.parent[name].annotation  # type: ignore[index]
@@ -300,7 +308,8 @@ def _read_attribute_type(
     parsed_values.attribute_types[attribute_name] = attribute_type
     attribute = parsed_values.attributes.get(attribute_name)
     if attribute is not None:
-        if attribute.annotation is None:
+        if attribute.annotation is None or ("attribute", attribute_name) in parsed_values.inferred_annotations:
+            parsed_values.inferred_annotations.discard(("attribute", attribute_name))
             attribute.annotation = attribute_type
         else:
             docstring_warning(docstring, 0, f"Duplicate attribute information for '{attribute_name}'")
